@@ -720,3 +720,138 @@ Proof.
     apply Hscan. }
   destruct Hfind as [r Hr]. exists r. split; [exact Hr|]. apply findk_find. exact Hr.
 Qed.
+
+(* ------------------------------------------------------------------------------------------ *)
+(* why shape_ok is not enough: an oscillating loop body inside a lookaround                    *)
+
+Definition tm_demo_env (t : list Z) : env :=
+  {| txt := t; tstart := 0; ecma := false; endz_strict := false; set_in := fun _ _ => false;
+     lower := fun x => x; is_word := fun _ => false; is_eword := fun _ => false |}.
+
+(* (?(1) <right-to-left a> (?<-1>) | <left-to-right a> (?<1>) ): moves right and sets group 1 when it is
+   unset, moves left and unsets it when it is set *)
+Definition tm_osc_body : node :=
+  NBackRefCond 0 1
+    (NConcat 0 [NChar COne 64 97; NCapture 0 (-1) 1 NEmpty])
+    (Some (NConcat 0 [NChar COne 0 97; NCapture 0 1 (-1) NEmpty])).
+Definition tm_osc_loop : node := NLoop false 0 0 INF tm_osc_body.
+Definition tm_osc_tree : node := NPosLook 0 tm_osc_loop.
+
+Definition tm_osc_s0 : st := {| pos := 0; caps := [] |}.
+Definition tm_osc_A : st := {| pos := 1; caps := [(1, [(1, 0)])] |}.
+Definition tm_osc_B : st := {| pos := 0; caps := [(1, [])] |}.
+
+(* Analysis.shape_ok accepts it in either direction (nothing is asked inside a lookaround); the loop
+   body is in neither direction *)
+Example tm_osc_shape :
+  shape_ok false tm_osc_tree = true /\ shape_ok true tm_osc_tree = true /\
+  tm_dir_ok false tm_osc_body = false /\ tm_dir_ok true tm_osc_body = false /\
+  term_ok tm_osc_tree = false.
+Proof. vm_compute. repeat split; reflexivity. Qed.
+
+Lemma tm_osc_body_steps (s s' : st) :
+  (forall f, (f < 4)%nat -> sem (tm_demo_env [97]) f tm_osc_body s = Fuel) ->
+  sem (tm_demo_env [97]) 4 tm_osc_body s = Ok [s'] ->
+  forall f, sem (tm_demo_env [97]) f tm_osc_body s = Fuel \/ sem (tm_demo_env [97]) f tm_osc_body s = Ok [s'].
+Proof.
+  intros Hlow H4 f. destruct (le_lt_dec 4 f) as [Hle|Hlt].
+  - right. exact (spec_sem_fuel_mono _ 4 f Hle _ _ _ H4).
+  - left. apply Hlow. exact Hlt.
+Qed.
+
+Ltac tm_osc_steps :=
+  apply tm_osc_body_steps;
+  [intros f0 Hf0; destruct f0 as [|[|[|[|f0]]]]; [vm_compute; reflexivity ..|lia]|vm_compute; reflexivity].
+
+(* the two states alternate for ever; only the iteration counter reaching INF could stop the loop *)
+Lemma tm_osc_iter (body : st -> res (list st)) :
+  (body tm_osc_A = Fuel \/ body tm_osc_A = Ok [tm_osc_B]) ->
+  (body tm_osc_B = Fuel \/ body tm_osc_B = Ok [tm_osc_A]) ->
+  forall fi count, 0 <= count -> count + Z.of_nat fi <= INF ->
+    iter fi body false INF tm_osc_A 0 count = Fuel /\ iter fi body false INF tm_osc_B 1 count = Fuel.
+Proof.
+  intros HA HB. induction fi as [|fi IH]; intros count Hc Hf; [split; reflexivity|].
+  destruct (IH (count + 1) ltac:(lia) ltac:(lia)) as [IA IB].
+  cbn [iter]. replace (INF <=? count) with false by lia. replace (0 <=? count) with true by lia.
+  cbn [pos tm_osc_A tm_osc_B]. change (1 =? 0) with false. change (0 =? 1) with false. cbn [orb andb].
+  split.
+  - destruct HA as [->| ->]; [reflexivity|]. unfold bindr, appr. cbn [bind bindl].
+    change (pos tm_osc_A) with 1 in IB. cbn [pos tm_osc_A] in IB. rewrite IB. reflexivity.
+  - destruct HB as [->| ->]; [reflexivity|]. unfold bindr, appr. cbn [bind bindl].
+    cbn [pos tm_osc_B] in IA. rewrite IA. reflexivity.
+Qed.
+
+Theorem tm_osc_needs_more_than_INF :
+  forall fuel, Z.of_nat fuel <= INF -> sem (tm_demo_env [97]) fuel tm_osc_tree tm_osc_s0 = Fuel.
+Proof.
+  intros fuel Hf. destruct fuel as [|[|[|f]]]; try reflexivity.
+  set (e := tm_demo_env [97]).
+  assert (HA : sem e (S f) tm_osc_body tm_osc_A = Fuel \/ sem e (S f) tm_osc_body tm_osc_A = Ok [tm_osc_B])
+    by tm_osc_steps.
+  assert (HB : sem e (S f) tm_osc_body tm_osc_B = Fuel \/ sem e (S f) tm_osc_body tm_osc_B = Ok [tm_osc_A])
+    by tm_osc_steps.
+  assert (H0 : sem e (S f) tm_osc_body tm_osc_s0 = Fuel \/ sem e (S f) tm_osc_body tm_osc_s0 = Ok [tm_osc_A])
+    by tm_osc_steps.
+  destruct (tm_osc_iter (sem e (S f) tm_osc_body) HA HB f 1 ltac:(lia) ltac:(lia)) as [IA _].
+  change (sem e (S (S (S f))) tm_osc_tree tm_osc_s0)
+    with (do l <- first_only (sem e (S (S f)) tm_osc_loop tm_osc_s0) ;
+          Ok (map (fun s' => with_pos s' (pos tm_osc_s0)) l)).
+  unfold tm_osc_loop. rewrite tm_sem_loop. change (0 =? 0) with true. cbv iota.
+  change (INF =? INF) with true. cbv iota. cbn [iter].
+  change (INF <=? 0) with false. cbn [pos tm_osc_s0]. change (0 =? -1) with false. cbn [orb andb].
+  destruct H0 as [->| ->]; [reflexivity|]. unfold bindr, appr, first_only. cbn [bind bindl].
+  cbn [pos tm_osc_A] in IA. change (0 + 1) with 1. rewrite IA. reflexivity.
+Qed.
+
+(* ... and yet it does terminate (the counter reaches INF after 2^31 iterations): B applies *)
+Corollary tm_osc_terminates_eventually :
+  exists fuel l, sem (tm_demo_env [97]) fuel tm_osc_tree tm_osc_s0 = Ok l.
+Proof.
+  exists (term_fuel_any tm_osc_tree). exact (spec_sem_total_any _ tm_osc_tree _ (Nat.le_refl _) tm_osc_s0).
+Qed.
+
+(* ------------------------------------------------------------------------------------------ *)
+(* non-vacuity: the bound on small trees                                                       *)
+
+(* the pattern ( a* )* on "aab": a nullable body under an unbounded loop -- the empty-iteration rule ends it *)
+Definition tm_ex_star_star : node :=
+  NLoop false 0 0 INF (NCapture 0 1 (-1) (NCharLoop COne LGreedy 0 97 0 INF)).
+(* (?:ab){2,3} on "ababab" *)
+Definition tm_ex_counted : node := NLoop false 0 2 3 (NMulti 0 [97; 98]).
+(* right-to-left lazy (?:a|b)+? inside a lookbehind, after a left-to-right prefix *)
+Definition tm_ex_lookbehind : node :=
+  NConcat 0 [NMulti 0 [97; 98];
+             NPosLook 64 (NLoop true 64 1 INF (NAlternate 64 [NChar COne 64 97; NChar COne 64 98]))].
+
+Example tm_ex_fuel_values :
+  term_ok tm_ex_star_star = true /\ term_fuel (tm_demo_env [97; 97; 98]) tm_ex_star_star = 6%nat /\
+  term_ok tm_ex_counted = true /\ term_fuel (tm_demo_env [97; 98; 97; 98; 97; 98]) tm_ex_counted = 11%nat /\
+  term_ok tm_ex_lookbehind = true /\ term_fuel (tm_demo_env [97; 98]) tm_ex_lookbehind = 8%nat.
+Proof. vm_compute. repeat split; reflexivity. Qed.
+
+Example tm_ex_star_star_runs :
+  let e := tm_demo_env [97; 97; 98] in
+  sem e (term_fuel e tm_ex_star_star) tm_ex_star_star {| pos := 0; caps := [] |} =
+    Ok [{| pos := 2; caps := [(1, [(2, 0); (0, 2)])] |};
+        {| pos := 2; caps := [(1, [(0, 2)])] |};
+        {| pos := 2; caps := [(1, [(2, 0); (1, 1); (0, 1)])] |};
+        {| pos := 2; caps := [(1, [(1, 1); (0, 1)])] |};
+        {| pos := 1; caps := [(1, [(1, 0); (0, 1)])] |};
+        {| pos := 1; caps := [(1, [(0, 1)])] |};
+        {| pos := 0; caps := [(1, [(0, 0)])] |};
+        {| pos := 0; caps := [] |}] /\
+  sem e (term_fuel e tm_ex_star_star - 3) tm_ex_star_star {| pos := 0; caps := [] |} = Fuel.
+Proof. vm_compute. split; reflexivity. Qed.
+
+Example tm_ex_counted_runs :
+  let e := tm_demo_env [97; 98; 97; 98; 97; 98] in
+  sem e (term_fuel e tm_ex_counted) tm_ex_counted {| pos := 0; caps := [] |} =
+    Ok [{| pos := 6; caps := [] |}; {| pos := 4; caps := [] |}] /\
+  attempt e (term_fuel e tm_ex_counted) tm_ex_counted 1 = Ok None.
+Proof. vm_compute. split; reflexivity. Qed.
+
+Example tm_ex_lookbehind_runs :
+  let e := tm_demo_env [97; 98] in
+  find e (term_fuel e tm_ex_lookbehind) tm_ex_lookbehind false 0 (-1) = Ok (Some {| pos := 2; caps := [] |}) /\
+  findk e (term_fuel e tm_ex_lookbehind) tm_ex_lookbehind false 0 (-1) = Ok (Some {| pos := 2; caps := [] |}).
+Proof. vm_compute. split; reflexivity. Qed.
